@@ -290,108 +290,3 @@ Proof.
   destruct (js_decode _ _ _ _); [|discriminate]. destruct (dsl_of_js _ _) as [[]|]; discriminate.
 Qed.
 
-(* ------------------------------------------------------------------ built-in functions *)
-Definition dsl_cycP (o : dsl_out) : Prop := fst o = DrAbort DaCycle -> dsl_cyc_in (snd o).
-
-Lemma dsl_cycP_val : forall v st, dsl_cycP (DrVal v, st). Proof. intros v st H. discriminate H. Qed.
-Lemma dsl_cycP_err : forall k st, dsl_cycP (DrErr k, st). Proof. intros k st H. discriminate H. Qed.
-Lemma dsl_cycP_err' : forall k st, dsl_cycP (dsl_err k st). Proof. intros k st H. discriminate H. Qed.
-Lemma dsl_cycP_dom : forall st, dsl_cycP (DrAbort DaDomain, st). Proof. intros st H. discriminate H. Qed.
-Lemma dsl_cycP_new_arr : forall st xs, dsl_cycP (dsl_new_arr st xs). Proof. intros st xs H. discriminate H. Qed.
-Lemma dsl_cycP_new_dict : forall st xs, dsl_cycP (dsl_new_dict st xs). Proof. intros st xs H. discriminate H. Qed.
-
-Lemma dsl_cycP_with_str : forall st v k, (forall s, dsl_cycP (k s)) -> dsl_cycP (dsl_with_str st v k).
-Proof.
-  intros st v k Hk. unfold dsl_with_str. destruct (dsl_to_string st v) as [s|e|a] eqn:E; [apply Hk | apply dsl_cycP_err |].
-  intros H. cbn in *. inversion H; subst. exists v. apply dsl_to_string_cyc. exact E.
-Qed.
-
-Lemma dsl_cycP_with_num : forall st v k, (forall m e, dsl_cycP (k m e)) -> dsl_cycP (dsl_with_num st v k).
-Proof.
-  intros st v k Hk. unfold dsl_with_num. destruct (dsl_to_double st v) as [[]|e|a] eqn:E; try apply dsl_cycP_dom; try apply dsl_cycP_err; [apply Hk|].
-  intros H. cbn in *. inversion H; subst. exists v. apply dsl_to_double_cyc. exact E.
-Qed.
-
-Lemma dsl_cycP_with_int : forall st v k, (forall m, dsl_cycP (k m)) -> dsl_cycP (dsl_with_int st v k).
-Proof.
-  intros st v k Hk. unfold dsl_with_int. destruct (dsl_to_int st v) as [[]|e|a] eqn:E; try apply dsl_cycP_dom; try apply dsl_cycP_err; [apply Hk|].
-  intros H. cbn in *. inversion H; subst. exists v. apply dsl_to_int_cyc. exact E.
-Qed.
-
-Lemma dsl_cycP_arity : forall n args st k, dsl_cycP k -> dsl_cycP (dsl_arity n args st k).
-Proof. intros. unfold dsl_arity. destruct (Nat.eqb _ _); [assumption | apply dsl_cycP_err']. Qed.
-
-Lemma dsl_getfield_nc : forall st c f, dsl_getfield st c f <> PrAbort DaCycle.
-Proof. intros st c f H. unfold dsl_getfield, dsl_opt_native in H. destruct c; split_hyp H. Qed.
-
-Lemma dsl_ns_set_nc : forall st l f v c, fst (dsl_ns_set st l f v c) <> PrAbort DaCycle.
-Proof. intros st l f v c H. unfold dsl_ns_set in H. split_hyp H. Qed.
-
-Lemma dsl_ns_remove_nc : forall st l f, fst (dsl_ns_remove st l f) <> PrAbort DaCycle.
-Proof. intros st l f H. unfold dsl_ns_remove in H. split_hyp H. Qed.
-
-Lemma dsl_setfield_nc : forall st c f v, fst (dsl_setfield st c f v) <> PrAbort DaCycle.
-Proof.
-  intros st c f v H. unfold dsl_setfield in H. destruct c; try (split_hyp H; fail).
-  exact (dsl_ns_set_nc _ _ _ _ _ H).
-Qed.
-
-Lemma dsl_cycP_ret_getfield : forall st c f st', dsl_cycP (dsl_ret (dsl_getfield st c f) st').
-Proof.
-  intros st c f st' H. unfold dsl_ret in H. cbn [fst] in H. exfalso.
-  destruct (dsl_getfield st c f) eqn:E; cbn in H; try discriminate. inversion H; subst. exact (dsl_getfield_nc _ _ _ E).
-Qed.
-
-Lemma dsl_cycP_of_pres : forall (r : dsl_pres * dsl_store), fst r <> PrAbort DaCycle -> dsl_cycP (dsl_lift (fst r), snd r).
-Proof. intros [p s] N H. cbn in *. destruct p; cbn in H; try discriminate. inversion H; subst. congruence. Qed.
-
-Lemma dsl_isect_args_nc : forall st rest a r al, dsl_isect_args st rest a r al <> LrAbort DaCycle.
-Proof.
-  induction rest as [|x t IH]; intros a r al H; [discriminate H|].
-  cbn [dsl_isect_args] in H.
-  destruct (dsl_sorted a); [|destruct (dsl_mixed_throws a); discriminate].
-  destruct (dsl_to_arrptr st x); try discriminate.
-  destruct (dsl_sorted xs); [|destruct (dsl_mixed_throws xs); discriminate].
-  destruct (_ && _); [discriminate|].
-  destruct (_ && _); [destruct (dsl_mixed_throws _); discriminate|].
-  exact (IH _ _ _ H).
-Qed.
-
-Ltac cyc_step :=
-  first
-  [ apply dsl_cycP_val | apply dsl_cycP_err | apply dsl_cycP_err' | apply dsl_cycP_dom | apply dsl_cycP_new_arr | apply dsl_cycP_new_dict
-  | apply dsl_cycP_ret_getfield
-  | apply dsl_cycP_arity
-  | (apply dsl_cycP_with_str; intros ?s)
-  | (apply dsl_cycP_with_num; intros ?m ?e)
-  | (apply dsl_cycP_with_int; intros ?m)
-  | match goal with |- dsl_cycP (if ?c then _ else _) => destruct c end
-  | match goal with |- dsl_cycP (match ?x with _ => _ end) => destruct x end
-  | match goal with |- dsl_cycP (let '(_, _) := ?x in _) => destruct x end ].
-
-Lemma dsl_cycP_join : forall a0 xs first acc st,
-  dsl_cycP ((fix go (xs : list dsl_val) (first : bool) (acc : dsl_val) (st : dsl_store) : dsl_out :=
-           match xs with
-           | [] => (DrVal acc, st)
-           | x :: t =>
-               let '(p1, st1) := if first then (PrVal acc, st) else dsl_binop_eval st DbAdd acc a0 in
-               match p1 with
-               | PrVal acc1 =>
-                   let '(p2, st2) := dsl_binop_eval st1 DbAdd acc1 x in
-                   match p2 with PrVal acc2 => go t false acc2 st2 | o => (dsl_lift o, st2) end
-               | o => (dsl_lift o, st1)
-               end
-           end) xs first acc st).
-Proof.
-  induction xs as [|x t IH]; intros first acc st; [apply dsl_cycP_val|].
-  assert (B : forall s a b, dsl_cycP (dsl_lift (fst (dsl_binop_eval s DbAdd a b)), snd (dsl_binop_eval s DbAdd a b))).
-  { intros s a b H. cbn [fst snd] in *. apply dsl_binop_cyc. destruct (fst (dsl_binop_eval s DbAdd a b)); cbn in H; try discriminate. congruence. }
-  destruct first.
-  - pose proof (B st acc x) as B2. destruct (dsl_binop_eval st DbAdd acc x) as [p2 st2]. cbn [fst snd] in B2.
-    destruct p2; try exact B2. apply IH.
-  - pose proof (B st acc a0) as B1. destruct (dsl_binop_eval st DbAdd acc a0) as [p1 st1]. cbn [fst snd] in B1.
-    destruct p1; try exact B1.
-    pose proof (B st1 v x) as B2. destruct (dsl_binop_eval st1 DbAdd v x) as [p2 st2]. cbn [fst snd] in B2.
-    destruct p2; try exact B2. apply IH.
-Qed.
-
